@@ -24,6 +24,22 @@ def _assign(name):
     return pick
 
 
+def _calls(node):
+    return {ast.unparse(n.func) for n in ast.walk(node) if isinstance(n, ast.Call)}
+
+
+def _assign_or(name, pred):
+    """the value bound to `name`; when the local has been renamed, the ONE assignment whose value satisfies `pred`"""
+    def pick(fn):
+        got = _assign(name)(fn)
+        if got is not None:
+            return got
+        vals = [n.value for n in ast.walk(fn) if isinstance(n, ast.Assign) and len(n.targets) == 1
+                and isinstance(n.targets[0], ast.Name) and pred(n.value)]
+        return vals[0] if len(vals) == 1 else None
+    return pick
+
+
 def _names(node):
     return {n.id for n in ast.walk(node) if isinstance(n, ast.Name)} | \
            {n.attr for n in ast.walk(node) if isinstance(n, ast.Attribute)}
@@ -80,10 +96,12 @@ RESIZE_ATOMS = {"table['start']": "start", "table['end']": "end_", "self.chromos
 
 SPECS = [
     # -- subdivide._split_targets ------------------------------------------------------------------------------
-    dict(path="skgenome/subdivide.py", func="_split_targets", lean="src_split_nbins", pick=_assign("nbins"),
+    dict(path="skgenome/subdivide.py", func="_split_targets", lean="src_split_nbins",
+         pick=_assign_or("nbins", lambda v: "round" in _calls(v)),
          order=["row_start", "row_end", "avg_size"],
          comment="_split_targets: `nbins = int(round(span / avg_size)) or 1` with `span = row.end - row.start` read through"),
-    dict(path="skgenome/subdivide.py", func="_split_targets", lean="src_split_bin_end", pick=_assign("bin_end"),
+    dict(path="skgenome/subdivide.py", func="_split_targets", lean="src_split_bin_end",
+         pick=_assign_or("bin_end", lambda v: "int" in _calls(v) and "round" not in _calls(v)),
          order=["row_start", "row_end", "avg_size", "i"],
          comment="_split_targets: `bin_end = row.start + int(i * bin_size)`, `bin_size = span / nbins` read through"),
     dict(path="skgenome/subdivide.py", func="_split_targets", lean="src_split_keeps", kind="cond", num="Int",
